@@ -2047,6 +2047,10 @@ def remap(pulse: PulseSequence, order: Sequence[int], d_per_qubit: int = 2,
                                                       oper_identifier_mapping)
     n_oper_identifiers, n_sort_idx = _map_identifiers(pulse.n_oper_identifiers,
                                                       oper_identifier_mapping)
+    for identifiers, kind in ((c_oper_identifiers, 'control'), (n_oper_identifiers, 'noise')):
+        if len(set(identifiers)) != len(identifiers):
+            raise ValueError(f'Mapping does not yield unique {kind} operator identifiers: '
+                             + f'{list(identifiers)}')
 
     remapped_pulse = PulseSequence(
         c_opers=c_opers[c_sort_idx],
@@ -2432,6 +2436,12 @@ def extend(
         n_opers.extend(util.tensor(*(ID_pre + [pulse.n_opers] + ID_post)))
         c_coeffs.extend(pulse.c_coeffs)
         n_coeffs.extend(pulse.n_coeffs)
+
+    # Identifiers mapped to the same name would make operators indistinguishable
+    for identifiers, kind in ((c_oper_identifiers, 'control'), (n_oper_identifiers, 'noise')):
+        if len(set(identifiers)) != len(identifiers):
+            raise ValueError(f'Found duplicate {kind} operator identifiers after mapping: '
+                             + f'{sorted(set(i for i in identifiers if identifiers.count(i) > 1))}')
 
     # Add optional additional noise Hamiltonian
     if additional_noise_Hamiltonian is not None:
